@@ -159,7 +159,9 @@ func entry(resource string, options *EntryOptions) (*base.SentinelEntry, *base.B
 	ctx.Input.BatchCount = options.batchCount
 	ctx.Input.Flag = options.flag
 	if len(options.args) != 0 {
-		ctx.Input.Args = options.args
+		// options is recycled when Entry returns: copy the arguments into the context's own slice
+		// instead of aliasing the pooled options' backing array.
+		ctx.Input.Args = append(ctx.Input.Args, options.args...)
 	}
 	if len(options.attachments) != 0 {
 		ctx.Input.Attachments = options.attachments
